@@ -56,6 +56,20 @@ CHECKS = {
             "All 84 array shapes, every dimension and chain depth, constants from -2 to size+1; vector/matrix indices; 20 index "
             "expression kinds x 6 targets; all masks of length 1-3 (thorough: 4) over an alphabet with foreign letters.",
             "Trusted: the accept/reject transcription in vf/checks/c13.py; accept = front end lets the program through.", "4/C13"),
+    "C18": ("exploration",
+            "Hypothesis-generated compilation histories with a metamorphic oracle (same source + options => same listing / wasm bytes) "
+            "against a never-compiled reference process; child processes under different PYTHONHASHSEED values",
+            "A target is compiled in a fork of a process that never compiled anything, and again in a worker after a generated "
+            "history of accepted and rejected compilations (including identifier-role clashes and same-named structs), and in "
+            "child processes with hash seeds 0/1/4242/random; listings, tables and wasm bytes must be identical.",
+            "Trusted: vf/pristine.py (reference process), LinearIR.InstructionPrinter as the listing.", "4/C18"),
+    "C20": ("exploration",
+            "exhaustive enumeration of small texts x offsets + Hypothesis texts; generated programs under generated layouts with "
+            "printer-recorded token ranges as the oracle; redeclaration diagnostics read back",
+            "SourceMapping is checked on every text of length <= 10 over {x, newline} and random texts at every offset; for "
+            "generated programs under random layouts every reported identifier / literal / declaration range must be exactly a "
+            "recorded token range, hull ranges must contain their children and round-trip through the printed form.",
+            "Trusted: vf/model.py printer bookkeeping (asserted against the text), the 1-based end-exclusive convention.", "4/C20"),
 }
 
 PENDING = {}
